@@ -776,7 +776,16 @@ func (a *Agent) initialCheckingTimeout() time.Duration {
 		disconnectedTimeout = defaultDisconnectedTimeout
 	}
 
-	return disconnectedTimeout + a.failedTimeout
+	return addTimeouts(disconnectedTimeout, a.failedTimeout)
+}
+
+// addTimeouts adds two timeouts, saturating instead of wrapping around.
+func addTimeouts(x, y time.Duration) time.Duration {
+	if y > 0 && x > math.MaxInt64-y {
+		return math.MaxInt64
+	}
+
+	return x + y
 }
 
 func (a *Agent) updateConnectionState(newState ConnectionState) {
@@ -945,7 +954,7 @@ func (a *Agent) validateSelectedPair() bool {
 	// Only allow transitions to failed if a.failedTimeout is non-zero
 	totalTimeToFailure := a.failedTimeout
 	if totalTimeToFailure != 0 {
-		totalTimeToFailure += a.disconnectedTimeout
+		totalTimeToFailure = addTimeouts(totalTimeToFailure, a.disconnectedTimeout)
 	}
 
 	a.updateConnectionState(a.connectionStateForDisconnection(disconnectedTime, totalTimeToFailure))
